@@ -24,10 +24,18 @@ let parse_act a =
   | _ -> failwith "act"
 let parse_rule r =
   match split '~' r with
-  | [pre; items; acts] ->
+  | pre :: items :: acts :: rest ->
     { r_pre = nat_of_int (int_of_string pre);
       r_pat = List.map gids (split ',' items);
-      r_acts = List.map (fun al -> if al = "-" then [] else List.map parse_act (split '&' al)) (split ',' acts) }
+      r_acts = List.map (fun al -> if al = "-" then [] else List.map parse_act (split '&' al)) (split ',' acts);
+      r_con = (match rest with
+               | [c] when String.length c > 2 && c.[0] = 'c' ->
+                 (* c<item><l|g|e><value> *)
+                 let k = ref 1 in while !k < String.length c && c.[!k] >= '0' && c.[!k] <= '9' do incr k done;
+                 Some { c_item = nat_of_int (int_of_string (String.sub c 1 (!k - 1)));
+                        c_cmp = (match c.[!k] with 'l' -> CLt | 'g' -> CGt | _ -> CEq);
+                        c_val = z_of_int (int_of_string (String.sub c (!k + 1) (String.length c - !k - 1))) }
+               | _ -> None) }
   | _ -> failwith "rule"
 let parse_pass p = match split ':' p with [_; rs] -> List.map parse_rule (split ';' rs) | _ -> failwith "pass"
 let () =
